@@ -19,6 +19,8 @@ import DclabModel.DriveUtil
     condense <scalar,…|-> <loaded|-> <basin|-> <anc|-> <storeBasin> <storeAnc>
                                                 → `out=<names> added=<names> oldraises=<0|1>` + items
     tdms <firstEmpty> <lastEmpty> <n>           → kept event indices
+    paths <in-name> <out-name> <samedir 0|1>    → `refused` | `out=<name> temp=<name>`  (setup_task_paths)
+    bulk <feats,…|-> …                          → features exported for each measurement of a directory
 -/
 open DclabModel.Copy DclabModel.DriveUtil
 
@@ -195,6 +197,16 @@ def handle (b : B) (line : String) : B × String :=
       (b, "out=" ++ joinWith "," (condOut env c) ++ " added=" ++ joinWith "," (condAdded env c) ++
         " oldraises=" ++ (if condenseOldRaises env c then "1" else "0") ++ " " ++
         showFile (condCopy env c))
+  | ["paths", pin, pout, same] =>
+    let mk (name : String) (d : List String) : Path := { dir := d, parts := name.splitOn "." }
+    let i := mk pin []
+    let o := mk pout (if same == "1" then [] else ["other"])
+    (b, match setupPaths [i] o (fun _ => true) with
+      | none => "refused"
+      | some tp => "out=" ++ joinWith "." tp.out.parts ++ " temp=" ++ joinWith "." tp.temp.parts)
+  | "bulk" :: ms =>
+    let lists := ms.map parseNames
+    (b, joinWith " " ((bulkFeatures lists).map fun l => if l.isEmpty then "-" else joinWith "," l))
   | ["tdms", a, l, n] =>
     match n.toNat? with
     | some n => (b, showNats (tdms2rtdcRows (a == "1") (l == "1") (List.range n)))
